@@ -127,7 +127,7 @@
         (rel, r.is_err(), cto48)
     }
 
-    // @harness ids=C10,C01 tier=quick kind=proof units=outstation::database::details::event::write_fn::write_cto,master::convert::Group2Var3::to_measurement timeout=300 note="g2v3, room for the object (7-byte buffer): every BinaryInput x index x 48-bit cto of either kind: NewHeader (nothing written) iff kind differs or t<cto or t-cto>65535, else bytes = index, flag octet, t-cto; master to_measurement(cto) rebuilds value, flags, exact time and sync kind"
+    // @harness ids=C10,C03,C01 tier=quick kind=proof units=outstation::database::details::event::write_fn::write_cto,master::convert::Group2Var3::to_measurement timeout=300 note="g2v3, room for the object (7-byte buffer): every BinaryInput x index x 48-bit cto of either kind: NewHeader (nothing written) iff kind differs or t<cto or t-cto>65535, else bytes = index, flag octet, t-cto; master to_measurement(cto) rebuilds value, flags, exact time and sync kind"
     #[kani::proof]
     #[kani::unwind(9)]
     fn vk_c10_write_cto_g2v3_n7() {
@@ -138,7 +138,7 @@
         kani::cover!(rel == Some(1) && cto48 == 0);
     }
 
-    // @harness ids=C10,C01 tier=thorough kind=proof units=outstation::database::details::event::write_fn::write_cto timeout=300 note="g2v3, 4-byte buffer (one byte short): representable event gives an error, never a truncated object reported as written; NewHeader decision unchanged"
+    // @harness ids=C10,C03,C01 tier=thorough kind=proof units=outstation::database::details::event::write_fn::write_cto timeout=300 note="g2v3, 4-byte buffer (one byte short): representable event gives an error, never a truncated object reported as written; NewHeader decision unchanged"
     #[kani::proof]
     #[kani::unwind(7)]
     fn vk_c10_write_cto_g2v3_n4() {
@@ -148,7 +148,7 @@
         kani::cover!(!err);
     }
 
-    // @harness ids=C10,C01 tier=thorough kind=proof units=outstation::database::details::event::write_fn::write_cto,master::convert::Group4Var3::to_measurement timeout=300 note="g4v3, same contract as g2v3 for DoubleBitBinaryInput (state code in bits 7..6)"
+    // @harness ids=C10,C03,C01 tier=thorough kind=proof units=outstation::database::details::event::write_fn::write_cto,master::convert::Group4Var3::to_measurement timeout=300 note="g4v3, same contract as g2v3 for DoubleBitBinaryInput (state code in bits 7..6)"
     #[kani::proof]
     #[kani::unwind(9)]
     fn vk_c10_write_cto_g4v3_n7() {
@@ -159,7 +159,7 @@
         kani::cover!(rel == Some(1) && cto48 == 0);
     }
 
-    // @harness ids=C10,C01 tier=thorough kind=proof units=outstation::database::details::event::write_fn::write_cto timeout=300 note="g4v3, 4-byte buffer: representable event gives an error"
+    // @harness ids=C10,C03,C01 tier=thorough kind=proof units=outstation::database::details::event::write_fn::write_cto timeout=300 note="g4v3, 4-byte buffer: representable event gives an error"
     #[kani::proof]
     #[kani::unwind(7)]
     fn vk_c10_write_cto_g4v3_n4() {
